@@ -528,6 +528,64 @@ theorem tcpConn_good (w : World) (src : Bytes) (script : List Stream.Ev) (g : Go
     have g2 := tcpServe_good ((Stream.dataOf script).length + script.length + 4) _ w.clients.length { script := script } g1
     exact g2.of (removeclient_inv _ _ _ g2.inv) (tame_removeclient _ _)
 
+/-! ### the proxy as stream client (`tcpconnect`, `tcpclientrd` with `closeh` / `timeouth`) -/
+
+theorem good_same (W W' : World) (g : Good W) (hh : W'.heap = W.heap) (hs : W'.servers = W.servers) (hc : W'.clients = W.clients)
+    (ho : W'.nextOrd = W.nextOrd) (hu : W'.udpPending = W.udpPending) : Good W' :=
+  g.of (same_inv W W' _ hh hs hc hu g.inv) (tame_same W W' hh hs hc ho)
+
+theorem event_good (W : World) (e : String) (g : Good W) : Good (event W e) := good_same W _ g rfl rfl rfl rfl rfl
+
+theorem streamConnect_good (w : World) (si : Nat) (reconnect : Bool) (g : Good w) : Good (streamConnect w si reconnect) := by
+  unfold streamConnect
+  cases getSrv w si with
+  | none => exact g
+  | some s =>
+    simp only
+    have g1 : Good (event { w with now := w.now + connectWait w.now s.connecttime } ("slept:" ++ toString (connectWait w.now s.connecttime))) :=
+      event_good _ _ (good_same w _ g rfl rfl rfl rfl rfl)
+    have g2 : Good (if reconnect = true then event (event { w with now := w.now + connectWait w.now s.connecttime }
+        ("slept:" ++ toString (connectWait w.now s.connecttime))) "reconnected"
+        else event { w with now := w.now + connectWait w.now s.connecttime } ("slept:" ++ toString (connectWait w.now s.connecttime))) := by
+      split
+      · exact event_good _ _ g1
+      · exact g1
+    exact g2.of (updSrv_noslots_inv _ _ si _ (fun _ => rfl) g2.inv) (tame_updSrv _ si _ (fun _ => rfl) (fun _ h => h))
+
+theorem clientRd_good (fuel : Nat) (w : World) (si : Nat) (s : Stream.Sock) (g : Good w) : Good (clientRd w si fuel s) := by
+  induction fuel generalizing w s with
+  | zero => exact g
+  | succ n ih =>
+    unfold clientRd
+    split
+    · exact g
+    · split
+      · rename_i b s' _
+        simp only
+        have g1 := event_good w ("got:" ++ toHex b) g
+        have g2 : Good (replyh (event w ("got:" ++ toHex b)) si b).1 := g1.of (replyh_inv _ _ si b g1.inv) (tame_replyh _ si b)
+        have g3 := event_good _ ("res:" ++ toString (replyh (event w ("got:" ++ toHex b)) si b).2 ++ "," ++
+          toString (grownQueue ((event w ("got:" ++ toHex b)).clients.map (·.replyq.length)) (replyh (event w ("got:" ++ toHex b)) si b).1)) g2
+        split
+        · exact ih _ _ (streamConnect_good _ si true g3)
+        · exact ih _ _ g3
+      · split
+        · split
+          · exact ih _ _ (streamConnect_good _ si true g)
+          · exact ih _ _ g
+        · exact g
+      · exact ih _ _ (streamConnect_good _ si true g)
+
+theorem srvConn_good (w : World) (si : Nat) (script : List Stream.Ev) (g : Good w) : Good (srvConn w si script) := by
+  have g1 := streamConnect_good w si false g
+  have g2 : Good (updSrv (streamConnect w si false) si fun s => { s with rdUp := true }) :=
+    g1.of (updSrv_noslots_inv _ _ si _ (fun _ => rfl) g1.inv) (tame_updSrv _ si _ (fun _ => rfl) (fun _ h => h))
+  unfold srvConn
+  simp only
+  apply clientRd_good
+  repeat' split
+  all_goals first | exact g | exact g2
+
 /-! ### server removal (`clientwr` errexit: `freeserver`) -/
 
 theorem freeSlots_good (n : Nat) (w : World) (si : Nat) (g : Good w) : Good (freeSlots w si n) := by
@@ -597,6 +655,7 @@ theorem step_good (w : World) (op : Op) (g : Good w) : Good (step w op) := by
   | udpsend n pkt => exact udpLoopTop_good _ (udpRecv_good w n pkt g)
   | tcpconn src script => exact tcpConn_good w src script g
   | rmserver si => exact rmserver_good w si g
+  | srvconn si script => exact srvConn_good w si script g
 
 /-! ### every history -/
 
